@@ -10,7 +10,7 @@ from lib import gpgen
 from py2v import gen
 
 PROP = "C05"
-PROPS_FILES = ["Props/C05.v", "Props/C05_incumbent.v", "Props/C05_qei.v", "Props/C05_qeif.v", "Props/C05_qeif_refuted.v", "Props/C05_gauss.v"]
+PROPS_FILES = ["Props/C05.v", "Props/C05_incumbent.v", "Props/C05_qei.v", "Props/C05_qei_hist.v", "Props/C05_qeif.v", "Props/C05_qeif_refuted.v", "Props/C05_gauss.v"]
 ASSUMPTIONS = [
   "real arithmetic (Coq R / Coquelicot); Phi := 1/2 + RInt pdf 0 z; Phi' = pdf, the Gaussian integral int_0^oo exp(-t^2) = sqrt(pi)/2, 0 < Phi < 1, the limits of Phi, "
   "the Mills-ratio tail bound and z*Phi(z) -> 0 at -infinity are all PROVED (Lib/Gauss.v) - no Gaussian fact is assumed any more",
@@ -148,8 +148,11 @@ def correspondence(ctx):
   fc = qeif_correspondence(ctx)
   dist.update(fc["distribution"])
   dis += fc["disagreements"]
-  qc = dict(evaluations=qc["evaluations"] + fc["evaluations"], distinct=qc["distinct"] + fc["distinct"], rule=qc["rule"] + "; " + fc["rule"],
-            samples=qc["samples"] + fc["samples"])
+  hc = qeih_correspondence(ctx)
+  dist.update(hc["distribution"])
+  dis += hc["disagreements"]
+  qc = dict(evaluations=qc["evaluations"] + fc["evaluations"] + hc["evaluations"], distinct=qc["distinct"] + fc["distinct"] + hc["distinct"],
+            rule=qc["rule"] + "; " + fc["rule"] + "; " + hc["rule"], samples=qc["samples"] + fc["samples"] + hc["samples"])
   return dict(evaluations=len(cases) + qc["evaluations"], distinct_nontrivial=nontriv + qc["distinct"],
               rule="batched evaluation of a recording acquisition function (integer tags, batch sizes None/0/1/2/3/n/n+1/17, n in 0..9) and the incumbents of "
                    "ExpectedImprovement / AugmentedExpectedImprovement / ExpectedImprovementWithFailures on small GPs with dyadic tied values; non-trivial = at "
@@ -209,7 +212,7 @@ def gen_qei_case(rng):
   need = calls * (-(-N // b)) * b * c
   stream = [rng.randint(-12, 12) / 4.0 for _ in range(need + (calls + 1) * b * c + 3)]    # slack: a changed loop may ask for one more block per call
   return dict(kind="qei", q=q, p=p, dim=dim, sets=sets, pending=pending, means=means, factors=factors, best=rng.randint(-16, 16) / 8.0,
-              N=N, B=B, entry=entry, batch=batch, as3d=bool(q > 1 or (entry == "direct" and rng.random() < 0.5)), stream=stream)
+              N=N, B=B, entry=entry, batch=batch, as3d=bool(q > 1 or (entry == "direct" and rng.random() < 0.5)), stream=stream, warmup=rng.random() < 0.35)
 
 
 def qei_tables(inp):
@@ -241,11 +244,14 @@ def run_qei_case(inp):
     best_observed_location = numpy.zeros(inp["dim"])
 
     def compute_mean_of_points(self, pts):
-      return numpy.array([mean_of[tuple(float(x) for x in pt)] for pt in numpy.asarray(pts)], dtype=float)
+      return numpy.array([mean_of[tuple(float(x) for x in pt)] + earlier[0] for pt in numpy.asarray(pts)], dtype=float)
 
     def compute_covariance_of_points(self, pts):
       return numpy.copy(cov_of[tuple(tuple(float(x) for x in pt) for pt in numpy.asarray(pts))])
 
+  # inp["warmup"]: the object has a PAST - it was built, and evaluated once, when the predictor answered differently (every mean higher by `earlier`,
+  # the other admissible factor -L of each covariance); then the predictor's data changed to what the case prescribes.  Nothing of the past may show.
+  earlier, sign = [1.5 if inp.get("warmup") else 0.0], [-1.0 if inp.get("warmup") else 1.0]
   pos, sizes = [0], []
 
   def normal(loc=0.0, scale=1.0, size=None):
@@ -258,7 +264,7 @@ def run_qei_case(inp):
     return out
 
   def chol(cov):
-    return numpy.copy(fac_of[numpy.ascontiguousarray(cov, dtype=float).tobytes()])
+    return sign[0] * numpy.copy(fac_of[numpy.ascontiguousarray(cov, dtype=float).tobytes()])
 
   pend = numpy.array(inp["pending"], dtype=float).reshape(p, dim)
   pts = numpy.array(inp["sets"], dtype=float).reshape(len(inp["sets"]), q, dim)
@@ -268,6 +274,10 @@ def run_qei_case(inp):
   EI.compute_cholesky_for_gp_sampling, numpy.random.normal = chol, normal
   try:
     af = EI.ExpectedParallelImprovement(Stub(), q, points_being_sampled=pend if p else None, num_mc_iterations=inp["N"], num_mc_iterations_per_loop=inp["B"])
+    if inp.get("warmup"):
+      af._evaluate_at_point_list(pts[:1])
+      earlier[0], sign[0], pos[0] = 0.0, 1.0, 0
+      del sizes[:]
     if inp["entry"] == "public":
       out = af.evaluate_at_point_list(pts, batch_size=inp["batch"])
     else:
@@ -304,7 +314,7 @@ def qei_correspondence(ctx):
     cases.append(qei_case_term(inp, out))
     meta.append((inp, out))
     b = min(inp["B"], inp["N"])
-    for t in (f"qei:q={inp['q']}", f"qei:p={inp['p']}", f"qei:sets={len(inp['sets'])}", f"qei:{inp['entry']}",
+    for t in (f"qei:q={inp['q']}", f"qei:p={inp['p']}", f"qei:sets={len(inp['sets'])}", f"qei:{inp['entry']}", "qei:object-with-a-past" if inp.get("warmup") else "qei:fresh-object",
               "qei:overshoot" if inp["N"] % b else "qei:multiple", "qei:several-passes" if inp["N"] > b else "qei:one-pass"):
       dist[t] = dist.get(t, 0) + 1
     if len(inp["sets"]) >= 2 and any(v > 0 for v in out["out"]):
@@ -319,6 +329,191 @@ def qei_correspondence(ctx):
                    "dyadic factors and scripted dyadic draws, q in 1..3, p in 0..2, 1..4 candidate sets per call, block sizes dividing and not dividing "
                    "num_mc_iterations, direct and public (batched) entry; non-trivial = at least two candidate sets and a positive estimate",
               samples=[dict(kind="qei", input={k: v for k, v in i.items() if k != "stream"}, impl_output=o) for i, o in meta[:1]])
+
+
+# ------------------------------------------------------------------------------------------ correspondence (histories on one live parallel-EI object)
+
+QEIH_HEADER = ("From Coq Require Import List QArith Bool Arith.\nFrom LV Require Import Model.ParallelEI Model.ParallelEICorr Model.ParallelEIHist Model.ParallelEIHistCorr.\n"
+               "Open Scope Q_scope.")
+
+
+def gen_qeih_case(rng):
+  """One live ExpectedParallelImprovement object on a stub predictor whose ANSWERS change during the object's life (as after
+  gp.append_lie_data / gp.update_historical_data: same predictor object, other posterior) and whose points_being_sampled are re-assigned,
+  with evaluations in between.  Dyadic means (k/8), dyadic factors (k/4), dyadic draws (k/4) as in gen_qei_case; the best observed value of
+  a later predictor is usually the one of the construction, sometimes another (the object keeps the incumbent it was built with)."""
+  from fractions import Fraction as F
+  q, dim = rng.choice([1, 1, 2]), rng.choice([1, 2])
+  pool = []
+  while len(pool) < 8:
+    pt = [float(rng.randint(-5, 5)) for _ in range(dim)]
+    if pt not in pool:
+      pool.append(pt)
+  cand, ppool = pool[:4], pool[4:]
+  pend0 = [list(pt) for pt in rng.sample(ppool, rng.choice([0, 1, 1, 2]))]
+  N, B = rng.choice(QEI_NB_EXACT) if rng.random() < 0.75 else rng.choice(QEI_NB_ROUNDED)
+  best0 = rng.randint(-16, 16) / 8.0
+  def new_means():
+    return [[pt, rng.randint(-16, 16) / 8.0] for pt in pool]
+  preds = [dict(best=best0, means=new_means(), factors=[])]
+  ops, cur, pend, covs = [], 0, pend0, {}
+  def eval_op():
+    n = rng.choice([1, 2, 3])
+    sets = [[list(rng.choice(cand)) for _ in range(q)] for _ in range(n)]
+    c = q + len(pend)
+    entry = rng.choice(["direct", "direct", "public"])
+    batch = rng.choice([None, 0, 1, 2, n + 1]) if entry == "public" else None
+    bs = (batch or n) if entry == "public" else n
+    b = min(B, N)
+    need = -(-n // bs) * (-(-N // b)) * b * c
+    for sset in sets:
+      union = sset + pend
+      if any(f[0] == union for f in preds[cur]["factors"]):
+        continue
+      L = [[(rng.randint(-8, 8) / 4.0 if j < i else rng.choice([0, 1, 2, 3, 4, 6]) / 4.0 if j == i else 0.0) for j in range(c)] for i in range(c)]
+      cov = [[float(sum(F(L[i][l]) * F(L[j][l]) for l in range(c))) for j in range(c)] for i in range(c)]
+      L = covs.setdefault(repr(cov), L)       # the factorisation is a function of the covariance: the same covariance again gets the same factor
+      preds[cur]["factors"].append([union, L])
+    return ["eval", sets, entry, batch, bool(q > 1 or (entry == "direct" and rng.random() < 0.5)), [rng.randint(-12, 12) / 4.0 for _ in range(need + 2 * b * c + 3)]]
+  if rng.random() < 0.6:
+    ops.append(eval_op())
+  for _ in range(rng.choice([1, 2, 2, 3])):
+    if rng.random() < 0.55:
+      preds.append(dict(best=best0 if rng.random() < 0.7 else rng.randint(-16, 16) / 8.0, means=new_means(), factors=[]))
+      cur = len(preds) - 1
+      ops.append(["pred", cur])
+    else:
+      pend = [list(pt) for pt in rng.sample(ppool, rng.choice([0, 1, 1, 2, 2]))]
+      ops.append(["pending", pend])
+    if rng.random() < 0.8:
+      ops.append(eval_op())
+  if ops[-1][0] != "eval":
+    ops.append(eval_op())
+  return dict(kind="qeih", q=q, dim=dim, N=N, B=B, pending=pend0, predictors=preds, ops=ops)
+
+
+def run_qeih_case(inp):
+  """the real class, ONE object, the operations of the case; returns per evaluation the estimates and the size= arguments of the draws"""
+  from fractions import Fraction as F
+  import libsigopt.compute.expected_improvement as EI
+  from libsigopt.compute.predictor import Predictor
+  q, dim = inp["q"], inp["dim"]
+  tables, fac_of = [], {}
+  for pr in inp["predictors"]:
+    cov_of = {}
+    for union, L in pr["factors"]:
+      c = len(L)
+      cov = numpy.array([[float(sum(F(L[i][l]) * F(L[j][l]) for l in range(c))) for j in range(c)] for i in range(c)], dtype=float).reshape(c, c)
+      cov_of[tuple(tuple(pt) for pt in union)] = cov
+      fac_of[cov.tobytes()] = numpy.array(L, dtype=float).reshape(c, c)
+    tables.append(dict(best=pr["best"], mean={tuple(pt): m for pt, m in pr["means"]}, cov=cov_of))
+  now = [0]
+
+  class Stub(Predictor):
+    dim = inp["dim"]
+    differentiable = False
+    best_observed_location = numpy.zeros(inp["dim"])
+
+    @property
+    def best_observed_value(self):
+      return tables[now[0]]["best"]
+
+    def compute_mean_of_points(self, pts):
+      return numpy.array([tables[now[0]]["mean"][tuple(float(x) for x in pt)] for pt in numpy.asarray(pts)], dtype=float)
+
+    def compute_covariance_of_points(self, pts):
+      return numpy.copy(tables[now[0]]["cov"][tuple(tuple(float(x) for x in pt) for pt in numpy.asarray(pts))])
+
+  stream, pos, sizes = [[]], [0], []
+
+  def normal(loc=0.0, scale=1.0, size=None):
+    sizes.append([int(v) for v in (size if isinstance(size, (tuple, list)) else [size])])
+    k = int(numpy.prod(size))
+    if loc != 0.0 or scale != 1.0 or pos[0] + k > len(stream[0]):
+      raise RuntimeError("numpy.random.normal asked for non-standard draws or for more draws than any reading of the loop needs")
+    out = numpy.array(stream[0][pos[0]:pos[0] + k], dtype=float).reshape(size)
+    pos[0] += k
+    return out
+
+  def chol(cov):
+    return numpy.copy(fac_of[numpy.ascontiguousarray(cov, dtype=float).tobytes()])
+
+  pend = numpy.array(inp["pending"], dtype=float).reshape(len(inp["pending"]), dim)
+  old = EI.compute_cholesky_for_gp_sampling, numpy.random.normal
+  EI.compute_cholesky_for_gp_sampling, numpy.random.normal = chol, normal
+  outs = []
+  try:
+    af = EI.ExpectedParallelImprovement(Stub(), q, points_being_sampled=pend if len(pend) else None, num_mc_iterations=inp["N"], num_mc_iterations_per_loop=inp["B"])
+    for op in inp["ops"]:
+      if op[0] == "pred":
+        now[0] = op[1]
+      elif op[0] == "pending":
+        af.points_being_sampled = numpy.array(op[1], dtype=float).reshape(len(op[1]), dim)
+      else:
+        _, sets, entry, batch, as3d, st = op
+        pts = numpy.array(sets, dtype=float).reshape(len(sets), q, dim)
+        if not as3d:
+          pts = pts[:, 0, :]
+        stream[0], pos[0] = st, 0
+        del sizes[:]
+        out = af.evaluate_at_point_list(pts, batch_size=batch) if entry == "public" else af._evaluate_at_point_list(pts)
+        outs.append(dict(out=[float(v) for v in numpy.asarray(out, dtype=float).ravel()], blocks=[list(b) for b in sizes]))
+  finally:
+    EI.compute_cholesky_for_gp_sampling, numpy.random.normal = old
+  return outs
+
+
+def qeih_case_term(inp, outs):
+  qv = lambda v: C.listlit(v, C.qlit)
+  ptl = lambda pts: C.listlit([qv(pt) for pt in pts])
+  def pred(pr):
+    means = C.listlit([f"({qv(pt)}, {C.qlit(m)})" for pt, m in pr["means"]])
+    facs = C.listlit([f"({ptl(u)}, {C.listlit(L, qv)})" for u, L in pr["factors"]])
+    return f"(mkpred {C.qlit(pr['best'])} {means} {facs})"
+  ops = []
+  for op in inp["ops"]:
+    if op[0] == "pred":
+      ops.append(f"(QPredictor {pred(inp['predictors'][op[1]])})")
+    elif op[0] == "pending":
+      ops.append(f"(QPending {ptl(op[1])})")
+    else:
+      entry = "None" if op[2] == "direct" else f"(Some {C.optlit(op[3], C.nlit)})"
+      ops.append(f"(QEval {C.listlit([ptl(sset) for sset in op[1]])} {entry} {qv(op[5])})")
+  outl = C.listlit([f"({qv(o['out'])}, {C.listlit([f'({C.nlit(b[0])}, {C.nlit(b[1])})' for b in o['blocks']])})" for o in outs])
+  return f"mkhcase {C.nlit(inp['q'])} {C.nlit(inp['N'])} {C.nlit(inp['B'])} {pred(inp['predictors'][0])} {ptl(inp['pending'])} {C.listlit(ops)} {outl}"
+
+
+def qeih_correspondence(ctx):
+  cases, meta, seen, dist, dis = [], [], set(), {}, []
+  for _ in range(ctx.n(120, 1500)):
+    inp = gen_qeih_case(ctx.rng)
+    try:
+      outs = run_qeih_case(inp)
+      if any(len(b) != 2 for o in outs for b in o["blocks"]) or not all(math.isfinite(v) for o in outs for v in o["out"]):
+        raise ValueError(f"draws / estimates unusable: {outs}")
+    except C.TieBroken:
+      raise
+    except Exception as e:
+      dis.append(dict(what=f"C05 qEI history: the live object raised or returned unusable values: {type(e).__name__}: {e}", kind="qeih", input=inp, observed=repr(e)))
+      continue
+    cases.append(qeih_case_term(inp, outs))
+    meta.append((inp, outs))
+    kinds = [op[0] for op in inp["ops"]]
+    for t in (["qeih:predictor-changed-before-an-evaluation"] if "pred" in kinds else []) + (["qeih:pending-reassigned"] if "pending" in kinds else []) + \
+             (["qeih:evaluated-before-and-after"] if kinds[0] == "eval" and kinds.count("eval") >= 2 else []) + [f"qeih:q={inp['q']}"]:
+      dist[t] = dist.get(t, 0) + 1
+    if kinds.count("eval") >= 2 and any(v > 0 for o in outs for v in o["out"]):
+      seen.add(C.canon_hash(inp))
+  bad = C.run_cases("C05qeih", QEIH_HEADER, "hcase", "hcheck", cases, shard=30)
+  for i in bad:
+    inp, outs = meta[i]
+    dis.append(dict(what=f"C05 correspondence (history on one live parallel-EI object) case {i}: an evaluation after the predictor's answers / the pending points changed differs "
+                         "from Model.ParallelEIHist (the estimator on what the predictor answers NOW for the candidates and the pending points held NOW)", kind="qeih", input=inp, observed=outs))
+  return dict(evaluations=len(cases), distinct=len(seen), distribution=dist, disagreements=dis,
+              rule="histories on one live ExpectedParallelImprovement object: stub predictor whose means / covariances / best observed value are swapped 1-3 times (as after "
+                   "update_historical_data), points_being_sampled re-assigned (0-2 points), evaluations (direct and public entry, 1-3 candidate sets) before, between and after; "
+                   "non-trivial = at least two evaluations and a positive estimate",
+              samples=[dict(kind="qeih", input={k: v for k, v in i.items() if k != "ops"}, ops=[op[:5] for op in i["ops"]], impl_output=o) for i, o in meta[:1]])
 
 
 # ------------------------------------------------------------------------------------------ correspondence (Monte-Carlo parallel EI with failure models)
@@ -396,7 +591,7 @@ def gen_qeif_case(rng):
     fm["threshold"] = float(F(m[j]) + sum(F(L[j][l]) * z[l] for l in range(c)))
   return dict(kind="qeif", q=q, p=p, dim=dim, sets=sets, pending=pending, hist=hist, hist_values=hist_values, best0=rng.randint(-16, 16) / 8.0,
               means=means, factors=factors, fmodels=fmodels, regime=regime, N=N, B=B, entry=entry, batch=batch,
-              as3d=bool(q > 1 or (entry == "direct" and rng.random() < 0.5)), stream=stream)
+              as3d=bool(q > 1 or (entry == "direct" and rng.random() < 0.5)), stream=stream, warmup=rng.random() < 0.35)
 
 
 # fixed cases: the inputs of the `_refuted` / `_matters` theorems of Props/C05_qeif.v, replayed on the real class on every run
@@ -455,6 +650,7 @@ def run_qeif_case(inp):
   from libsigopt.compute.probabilistic_failures import ProbabilisticFailuresBase, ProductOfListOfProbabilisticFailures
   q, p, dim, c = inp["q"], inp["p"], inp["dim"], inp["q"] + inp["p"]
   fac_of = {}
+  earlier, sign = [1.5 if inp.get("warmup") else 0.0], [-1.0 if inp.get("warmup") else 1.0]
 
   def tables(means, factors):
     cov_of = {}
@@ -475,7 +671,7 @@ def run_qeif_case(inp):
       points_sampled_value = numpy.array(inp["hist_values"], dtype=float)
 
       def compute_mean_of_points(self, pts):
-        return numpy.array([mean_of[tuple(float(x) for x in pt)] for pt in numpy.asarray(pts)], dtype=float)
+        return numpy.array([mean_of[tuple(float(x) for x in pt)] + earlier[0] for pt in numpy.asarray(pts)], dtype=float)
 
       def compute_covariance_of_points(self, pts):
         return numpy.copy(cov_of[tuple(tuple(float(x) for x in pt) for pt in numpy.asarray(pts))])
@@ -508,7 +704,7 @@ def run_qeif_case(inp):
     return out
 
   def chol(cov):
-    return numpy.copy(fac_of[numpy.ascontiguousarray(cov, dtype=float).tobytes()])
+    return sign[0] * numpy.copy(fac_of[numpy.ascontiguousarray(cov, dtype=float).tobytes()])
 
   pend = numpy.array(inp["pending"], dtype=float).reshape(p, dim)
   pts = numpy.array(inp["sets"], dtype=float).reshape(len(inp["sets"]), q, dim)
@@ -522,6 +718,10 @@ def run_qeif_case(inp):
     af = EI.ExpectedParallelImprovementWithFailures(objective, q, product, points_being_sampled=pend if p else None,
                                                     num_mc_iterations=inp["N"], num_mc_iterations_per_loop=inp["B"])
     best = float(af.best_value)
+    if inp.get("warmup"):     # the object's past (see run_qei_case): built and evaluated once when objective and constraint predictors answered differently
+      af._evaluate_at_point_list(pts[:1])
+      earlier[0], sign[0], pos[0] = 0.0, 1.0, 0
+      del sizes[:]
     if inp["entry"] == "public":
       out = af.evaluate_at_point_list(pts, batch_size=inp["batch"])
     else:
@@ -564,7 +764,7 @@ def qeif_correspondence(ctx):
       fixed_out[tag] = out["out"]
     b = min(inp["B"], inp["N"])
     st = qeif_expected(inp)[2]
-    for t in (f"qeif:q={inp['q']}", f"qeif:p={inp['p']}", f"qeif:sets={len(inp['sets'])}", f"qeif:models={len(inp['fmodels'])}", f"qeif:{inp['entry']}",
+    for t in (f"qeif:q={inp['q']}", f"qeif:p={inp['p']}", f"qeif:sets={len(inp['sets'])}", f"qeif:models={len(inp['fmodels'])}", f"qeif:{inp['entry']}", "qeif:object-with-a-past" if inp.get("warmup") else "qeif:fresh-object",
               f"qeif:thresholds-{inp['regime']}", "qeif:overshoot" if inp["N"] % b else "qeif:multiple", "qeif:several-passes" if inp["N"] > b else "qeif:one-pass",
               "qeif:incumbent-acceptable" if st["acceptable"] else "qeif:incumbent-fallback"):
       dist[t] = dist.get(t, 0) + 1
@@ -612,6 +812,37 @@ def ei_quadrature(mu, sd, best, n=4000):
   return float(0.5 * (hi - lo) * numpy.sum(ws * (best - y) * dens))
 
 
+def qei_independent_check(inp, gi, x1, pend, got, best, N, fail, label):
+  """independent estimate (also where the joint covariance is singular: a candidate equal to a pending point, duplicated pending
+  points - the library then samples through its SVD fallback factor): E max(0, best - min_j Y_j), Y ~ N(mean, cov) from the
+  reference posterior of the model `gi`, sampled through a symmetric eigen-factor with a generator of its own"""
+  pts = numpy.vstack([x1, pend])
+  ref = dict(gi, xs=pts.tolist())
+  rmean, _, rcov, rcond = gpgen.reference_posterior(ref)
+  w_, U = numpy.linalg.eigh((rcov + rcov.T) / 2)
+  F = U * numpy.sqrt(numpy.clip(w_, 0.0, None))[None, :]
+  g2 = numpy.random.default_rng(inp["mc"]["seed"] + 1)
+  N2 = 200000
+  Y = rmean[None, :] + g2.standard_normal((N2, len(rmean))) @ F.T
+  imp = numpy.fmax(0.0, best - Y.min(axis=1))
+  est, se2 = float(imp.mean()), float(imp.std() / math.sqrt(N2))
+  se1 = float(imp.std() / math.sqrt(N))
+  # the SAMPLE standard deviation is a usable error bar only when improving draws are common: with a handful of improving draws
+  # among 2e5 (improvement probability ~1e-5) both estimates are compound-Poisson, not normal, and the sample deviation
+  # underestimates the spread by an order of magnitude (false alarm of the thorough tier, seed 12345: 1.5e-5 against 3.8e-7 on the
+  # unchanged tree).  Fewer than 200 expected improving draws in the library's sample: use the rigorous bound instead -
+  # max(0, best - min_j Y_j) is 1-Lipschitz in Y for the sup norm, so its variance is at most max_j Var(Y_j)
+  if N * float((imp > 0).mean()) < 200:
+    sd_bound = math.sqrt(max(float(numpy.diag(rcov).max()), 1e-300))
+    se1, se2 = sd_bound / math.sqrt(N), sd_bound / math.sqrt(N2)
+  # rounding of the library's posterior: forward error of the Cholesky solves, eps * cond(K) relative to the magnitudes (reading of C02)
+  scale = max(1.0, abs(est), float(numpy.abs(rmean).max()), abs(best))
+  if rcond <= 1e10 and abs(got - est) > 6 * (se1 + se2) + (1e-9 + 1e-14 * rcond) * scale:
+    return fail("Monte-Carlo parallel EI with pending points differs from an independent estimate of E max(0, best - min Y) beyond the Monte-Carlo error" + label,
+                got, dict(estimate=est, se_library=se1, se_reference=se2))
+  return None
+
+
 def oracle(inp):
   from libsigopt.compute.expected_improvement import (AugmentedExpectedImprovement, ExpectedImprovement, ExpectedImprovementWithFailures,
                                                        ExpectedParallelImprovement)
@@ -621,6 +852,8 @@ def oracle(inp):
     return dict(signature=f"C05:{what}", what=what, input=inp, observed=observed, expected=expected, oracle="quadrature / closed form / Monte-Carlo band")
   if inp.get("kind") == "qei":
     return qei_oracle(inp)
+  if inp.get("kind") == "qeih":
+    return qeih_oracle(inp)
   if inp.get("kind") == "qeif":
     if inp.get("regime") == "fallback-finding":
       return qeif_agreement_oracle(inp)
@@ -821,32 +1054,44 @@ def oracle(inp):
       band = 6 * math.sqrt(max(float(numpy.diag(cov).max()), 1e-300) / N) * 2 + 1e-6
       if not inp["mc"].get("coincident") and abs(got - exact) > band:
         return fail("Monte-Carlo parallel EI with pending points differs from the exact value beyond the Monte-Carlo error", got, exact)
-      # independent estimate (also where the joint covariance is singular: a candidate equal to a pending point, duplicated pending
-      # points - the library then samples through its SVD fallback factor): E max(0, best - min_j Y_j), Y ~ N(mean, cov) from the
-      # reference posterior, sampled through a symmetric eigen-factor with a generator of its own
-      ref = dict(gi, xs=pts.tolist())
-      rmean, _, rcov, rcond = gpgen.reference_posterior(ref)
-      w_, U = numpy.linalg.eigh((rcov + rcov.T) / 2)
-      F = U * numpy.sqrt(numpy.clip(w_, 0.0, None))[None, :]
-      g2 = numpy.random.default_rng(inp["mc"]["seed"] + 1)
-      N2 = 200000
-      Y = rmean[None, :] + g2.standard_normal((N2, len(rmean))) @ F.T
-      imp = numpy.fmax(0.0, float(qei.best_value) - Y.min(axis=1))
-      est, se2 = float(imp.mean()), float(imp.std() / math.sqrt(N2))
-      se1 = float(imp.std() / math.sqrt(N))
-      # the SAMPLE standard deviation is a usable error bar only when improving draws are common: with a handful of improving draws
-      # among 2e5 (improvement probability ~1e-5) both estimates are compound-Poisson, not normal, and the sample deviation
-      # underestimates the spread by an order of magnitude (false alarm of the thorough tier, seed 12345: 1.5e-5 against 3.8e-7 on the
-      # unchanged tree).  Fewer than 200 expected improving draws in the library's sample: use the rigorous bound instead -
-      # max(0, best - min_j Y_j) is 1-Lipschitz in Y for the sup norm, so its variance is at most max_j Var(Y_j)
-      if N * float((imp > 0).mean()) < 200:
-        sd_bound = math.sqrt(max(float(numpy.diag(rcov).max()), 1e-300))
-        se1, se2 = sd_bound / math.sqrt(N), sd_bound / math.sqrt(N2)
-      # rounding of the library's posterior: forward error of the Cholesky solves, eps * cond(K) relative to the magnitudes (reading of C02)
-      scale = max(1.0, abs(est), float(numpy.abs(rmean).max()), abs(float(qei.best_value)))
-      if rcond <= 1e10 and abs(got - est) > 6 * (se1 + se2) + (1e-9 + 1e-14 * rcond) * scale:
-        return fail("Monte-Carlo parallel EI with pending points differs from an independent estimate of E max(0, best - min Y) beyond the Monte-Carlo error",
-                    got, dict(estimate=est, se_library=se1, se_reference=se2))
+      r = qei_independent_check(inp, gi, x1, pend, got, float(qei.best_value), N, fail, "")
+      if r:
+        return r
+    # ---- the life of the qEI object: the predictor it reads from and its pending points change AFTER it was built (appended lie data, the model's data
+    # replaced, the pending set re-assigned) and it is evaluated again.  The incumbent is unchanged by construction (lies carry the worst value, replaced
+    # values keep the best observation where and what it was), so "the exact value" is unambiguous: E max(0, best - min Y) under the posterior and the
+    # pending points the object holds NOW.
+    hist = inp["mc"].get("history")
+    if hist:
+      from libsigopt.compute.misc.data_containers import HistoricalData
+      cur, pend_now, best0 = dict(gi), pend, float(numpy.min(gi["values"]))
+      for step in hist:
+        if step[0] == "evaluate":
+          qei.evaluate_at_point_list(x1)
+        elif step[0] == "lies":
+          gp.append_lie_data(numpy.array(step[1], dtype=float))
+          cur = dict(cur, points=cur["points"] + step[1], values=cur["values"] + [max(cur["values"])] * len(step[1]), noise=cur["noise"] + [1e-12] * len(step[1]))
+        elif step[0] == "replace":
+          hd = HistoricalData(xs.shape[1])
+          hd.append_historical_data(numpy.array(cur["points"], dtype=float), numpy.array(step[1]["values"], dtype=float), numpy.array(step[1]["noise"], dtype=float))
+          gp.update_historical_data(hd)
+          cur = dict(cur, values=list(step[1]["values"]), noise=list(step[1]["noise"]))
+        elif step[0] == "pending":
+          pend_now = numpy.array(step[1], dtype=float).reshape(-1, xs.shape[1])
+          qei.points_being_sampled = pend_now.copy()
+      if min(cur["values"]) != best0:
+        raise ValueError("history of a qEI case changes the incumbent")
+      numpy.random.seed(inp["mc"]["seed"] + 7)
+      try:
+        got2 = float(qei.evaluate_at_point_list(x1)[0])
+      except numpy.linalg.LinAlgError:
+        raise
+      except Exception as e:
+        return fail("Monte-Carlo parallel EI raises on a live object whose predictor / pending points changed after it was built", repr(e), "an estimate")
+      if len(pend_now):
+        r = qei_independent_check(inp, cur, x1, pend_now, got2, best0, N, fail, " [live object: predictor / pending points changed after construction]")
+        if r:
+          return r
   return None
 
 
@@ -865,6 +1110,23 @@ def gen_input(rng, quick):
     elif co == "dup":   # the same pending point listed twice
       inp["mc"]["pending"].append(list(inp["mc"]["pending"][0]))
     inp["mc"]["coincident"] = co
+    if rng.random() < 0.6:     # the life of the qEI object after it was built (see oracle): 1-3 steps, the incumbent stays what and where it was
+      vals, n = list(gi["values"]), len(gi["values"])
+      ib = min(range(n), key=lambda i: vals[i])
+      lvl = sum(gi["noise"]) / n
+      steps = [["evaluate"]] if rng.random() < 0.5 else []
+      for _ in range(rng.choice([1, 1, 2, 3])):
+        op = rng.choice(["lies", "replace", "replace", "pending", "pending"])
+        if op == "lies":
+          steps.append(["lies", [[rng.uniform(0, 1) for _ in range(dim)] for _ in range(rng.randint(1, 2))]])
+        elif op == "replace":    # the model's data re-measured at the same locations: other values (none below the best one), other noise variances
+          vals = [vals[i] if i == ib else vals[ib] + rng.uniform(0.05, 2.0) for i in range(len(vals))]
+          steps.append(["replace", dict(values=list(vals), noise=[max(lvl, 1e-6) * rng.uniform(0.5, 2) for _ in range(len(vals))])])
+        else:
+          steps.append(["pending", [[rng.uniform(0, 1) for _ in range(dim)] for _ in range(rng.choice([1, 1, 2]))]])
+        if op == "lies":
+          vals = vals + [max(vals)] * len(steps[-1][1])
+      inp["mc"]["history"] = steps
   return inp
 
 
@@ -899,6 +1161,54 @@ def qei_oracle(inp):
     return dict(signature="C05:qei:estimate is not the mean improvement of the sample minimum", input=inp, observed=got, expected=want,
                 what="Monte-Carlo parallel EI: an estimate is not the mean over the executed draws of max(0, best - min_j (m - L z)_j) for its own candidate set",
                 oracle="exact rational restatement on a scripted posterior (stub predictor, prescribed factor, scripted draws)")
+  return None
+
+
+def qeih_oracle(inp):
+  """Plain-Python exact restatement (fractions) for a history on one live object: every evaluation's estimate of candidate set k is the mean, over the
+  draws its call executed, of max(0, best - min_j y_j), y = m - L z, where m = what the predictor answers AT THAT MOMENT for the set's points and for the
+  pending points held AT THAT MOMENT, L = the factor of the covariance it answers then for their union, best = the predictor's best observed value when
+  the object was CONSTRUCTED (the documented incumbent: read once).  The returned doubles must be the correctly rounded values of these rationals."""
+  from fractions import Fraction as F
+  try:
+    got = run_qeih_case(inp)
+  except C.TieBroken:
+    raise
+  except Exception as e:
+    return dict(signature="C05:qeih:raises", what=f"Monte-Carlo parallel EI raised {type(e).__name__} during a history on one live object: {e}", input=inp,
+                observed=repr(e), expected="one estimate per candidate set at every evaluation", oracle="exact rational restatement")
+  best, now, pend, it = F(inp["predictors"][0]["best"]), inp["predictors"][0], inp["pending"], iter(got)
+  b = min(inp["B"], inp["N"])
+  executed = -(-inp["N"] // b) * b
+  for op in inp["ops"]:
+    if op[0] == "pred":
+      now = inp["predictors"][op[1]]
+    elif op[0] == "pending":
+      pend = op[1]
+    else:
+      _, sets, entry, batch, _, st = op
+      mean = {tuple(pt): m for pt, m in now["means"]}
+      fac = {tuple(tuple(pt) for pt in u): L for u, L in now["factors"]}
+      c, n = inp["q"] + len(pend), len(sets)
+      bs = (batch or n) if entry == "public" else n
+      want = []
+      for k, sset in enumerate(sets):
+        off = (k // bs) * executed * c
+        m = [F(mean[tuple(pt)]) for pt in sset + pend]
+        L = fac[tuple(tuple(pt) for pt in sset + pend)]
+        tot = F(0)
+        for i in range(executed):
+          z = [F(v) for v in st[off + i * c: off + (i + 1) * c]]
+          tot += max(F(0), best - min(m[j] - sum(F(L[j][l]) * z[l] for l in range(c)) for j in range(c)))
+        want.append(float(tot / executed))
+      have = next(it)["out"]
+      if len(have) != n or any(g != w for g, w in zip(have, want)):
+        return dict(signature="C05:qeih:an evaluation on a live object is not the estimate for the predictor's current answers and the current pending points", input=inp,
+                    observed=have, expected=want,
+                    what="Monte-Carlo parallel EI, history on one live object (the predictor's data changed / points_being_sampled were re-assigned after construction): an "
+                         "estimate is not the mean over the executed draws of max(0, best - min_j (m - L z)_j) with the means and the factor the predictor answers NOW for "
+                         "the candidate set ++ the pending points held NOW",
+                    oracle="exact rational restatement on a scripted posterior (stub predictor whose answers change, prescribed factors, scripted draws)")
   return None
 
 
@@ -1042,7 +1352,7 @@ def search(ctx, hints, broken):
     if r and r["signature"] not in {f["signature"] for f in fails}:
       fails.append(r)
   for h in hints:
-    if isinstance(h.get("input"), dict) and h["input"].get("kind") in ("qei", "qeif"):
+    if isinstance(h.get("input"), dict) and h["input"].get("kind") in ("qei", "qeif", "qeih"):
       n += 1
       r = oracle(h["input"])
       if r and r["signature"] not in {f["signature"] for f in fails}:
@@ -1067,6 +1377,13 @@ def search(ctx, hints, broken):
       if r["signature"] not in {f["signature"] for f in fails}:
         fails.append(r)
       break
+  for _ in range(ctx.n(60, 600)):
+    n += 1
+    r = oracle(gen_qeih_case(ctx.rng))
+    if r:
+      if r["signature"] not in {f["signature"] for f in fails}:
+        fails.append(r)
+      break
   for inp in [i for _, i in QEIF_FIXED] + [gen_qeif_case(ctx.rng) for _ in range(ctx.n(40, 400))]:
     n += 1
     r = oracle(inp)
@@ -1079,3 +1396,12 @@ def search(ctx, hints, broken):
 
 def replay(ctx, payload):
   return oracle(payload["input"])
+
+# --- gap round B (seeded C05_m13): histories on one live parallel-EI object
+LEVEL_TEXT += ("; histories on ONE live parallel-EI object (Model/ParallelEIHist.v, exact op-sequence correspondence on the real class over a stub predictor whose answers are "
+               "swapped, as after gp.update_historical_data, and whose points_being_sampled are re-assigned): the object keeps only the incumbent of its construction, its pending "
+               "points and the iteration counts; every evaluation is the estimator on what the predictor answers THEN for the candidates and for the pending points held THEN "
+               "(C05_qei_hist_state, C05_qei_hist_eval_is_fresh, C05_qei_hist_estimate); the searcher's comparison with the independent estimate is also made after lie data "
+               "were appended to / the data replaced in the live GP and after the pending points were re-assigned (incumbent unchanged by construction)")
+LEVEL_TEXT += ("; in a third of the scripted parallel-EI cases (with and without failure models) the object has a past: it was built and evaluated once while every predictor "
+               "answered differently (other means, the other admissible factor -L), then the predictors changed to what the case prescribes - model, reading and exact oracle are those of a fresh object")
